@@ -47,13 +47,17 @@ def _real_inputs(m):
     return T, m["pr"] * ppc, TpcR - 459.67, ppc
 
 
-def replay_root(model, deviation=False, family=False):
-    """Real z_factor_DAK at the model's point (optionally the pressure family of the witness)."""
+def replay_root(model, deviation=False, family=False, grid=False):
+    """Real z_factor_DAK at the model's point (optionally the pressure family of the witness, or a grid of the validity
+    rectangle - a root finder that may stop early fails where it needs most iterations, not where the solver's model lies)."""
     from bluebonnet.fluids import gas
-    m = model_floats(model, ["Tr", "pr", "TpcR", "ppc"], default=dict(TpcR=380.0, ppc=650.0))
+    m = model_floats(model, ["Tr", "pr", "TpcR", "ppc"], default=dict(Tr=1.1, pr=3.0, TpcR=380.0, ppc=650.0))
     pts = [m]
     if family:
         pts += [dict(m, pr=v) for v in (16.0, 20.0, 25.0, 30.0, 10.0, 5.0)]
+    if grid:
+        pts += [dict(m, Tr=a, pr=b) for a in (1.05, 1.1, 1.15, 1.2, 1.25, 1.3, 1.5, 2.0, 3.0)
+                for b in (0.2, 0.5, 1.0, 2.0, 2.5, 3.0, 3.5, 4.0, 4.5, 6.0, 10.0, 20.0, 30.0)]
     worst = None
     for q in pts:
         T, p, Tpc, ppc = _real_inputs(q)
@@ -175,8 +179,10 @@ def job_dak(job):
                       note="ValueError path of the root finder inside the validity rectangle; 'unknown' = undecided")
             job.prove("dak/root[published]", pc + [off_root(F_pub)], bound="rectangle",
                       replay=(replay_root, {"deviation": False}), finding="C06-dak-first-coefficient")
+            guaranteed = brs[0].get("root_guaranteed", True)
             job.prove("dak/root[deviation]", pc + [off_root(F_dev)], bound="rectangle",
-                      replay=(replay_root, {"deviation": True}))
+                      replay=(replay_root, {"deviation": True, "grid": not guaranteed}),
+                      note=None if guaranteed else f"brentq called with disp={brs[0].get('disp')!r}, maxiter={brs[0].get('maxiter')!r}: an unconverged iterate is returned silently")
         else:
             f = mins[0]["fun"]
             g = f(SS.SymArray([rho]))
